@@ -89,13 +89,18 @@ def materialize(workdir, shape, sizes, seed, names=None):
 
 
 def real_torrentfile():
-    """The unmodified package from /repo (fresh import state per call site)."""
+    """The unmodified package from /repo (fresh import state per call).  For
+    canary runs VERIF_REAL_REPO points at a scratch copy with the mutant applied."""
     for k in [k for k in sys.modules if k == "torrentfile" or k.startswith("torrentfile.")]:
         del sys.modules[k]
-    repo = os.environ.get("VERIF_REPO", "/repo")
-    if repo not in sys.path:
+    repo = os.environ.get("VERIF_REAL_REPO") or os.environ.get("VERIF_REPO", "/repo")
+    sys.path[:] = [p for p in sys.path if "verif-mutant-" not in p]
+    if sys.path[0] != repo:
         sys.path.insert(0, repo)
+    import importlib
+    importlib.invalidate_caches()
     import torrentfile  # noqa: F401
+    assert os.path.dirname(os.path.dirname(os.path.abspath(torrentfile.__file__))) == os.path.abspath(repo), torrentfile.__file__
     import torrentfile.torrent
     import torrentfile.recheck
     import torrentfile.rebuild
